@@ -193,6 +193,7 @@ func (ru *run) planDisputes(parent *chainBlock, plan *blockPlan) {
 		offender[o] = true
 	}
 	var d types.DisputesExtrinsic
+	var blamedAsCulprit, blamedForFault []*valKey // in this block
 	nv := 1 + t.Choose(2, "nverdicts")
 	for i := 0; i < nv; i++ {
 		var target types.WorkReportHash
@@ -257,17 +258,32 @@ func (ru *run) planDisputes(parent *chainBlock, plan *blockPlan) {
 			if len(cands) < 2 {
 				continue
 			}
-			for _, c := range cands[:2] {
+			pick := cands[:2]
+			// one validator may be blamed twice in one block - as a culprit of one report and for a fault on another:
+			// it is ONE new offender
+			if len(blamedForFault) > 0 && t.Prob(1, 2, "culprit_is_also_at_fault") {
+				pick = []*valKey{blamedForFault[0], cands[0]}
+				ru.r.Count("fault:same_validator_culprit_and_fault_in_one_block", 1)
+			}
+			for _, c := range pick {
 				d.Culprits = append(d.Culprits, types.Culprit{Target: target, Key: c.pub.Ed25519, Signature: edSign(c, append([]byte(types.JamGuarantee), target[:]...))})
 				offender[c.pub.Ed25519] = true
+				blamedAsCulprit = append(blamedAsCulprit, c)
 			}
 		case 0: // good: at least one fault (somebody who declared it invalid)
-			if len(cands) < 1 {
+			if len(cands) < 1 && len(blamedAsCulprit) == 0 {
 				continue
 			}
-			c := cands[len(cands)-1]
+			var c *valKey
+			if len(blamedAsCulprit) > 0 && (len(cands) < 1 || t.Prob(1, 2, "fault_by_a_culprit")) {
+				c = blamedAsCulprit[0]
+				ru.r.Count("fault:same_validator_culprit_and_fault_in_one_block", 1)
+			} else {
+				c = cands[len(cands)-1]
+			}
 			d.Faults = append(d.Faults, types.Fault{Target: target, Vote: false, Key: c.pub.Ed25519, Signature: edSign(c, append([]byte(types.JamInvalid), target[:]...))})
 			offender[c.pub.Ed25519] = true
+			blamedForFault = append(blamedForFault, c)
 		}
 		d.Verdicts = append(d.Verdicts, v)
 	}
